@@ -47,7 +47,7 @@ func (c08) Info(t core.Tier) core.Info {
 
 const c08Schemas = 8
 
-func (c08) NumCases(t core.Tier) int { return tierN(t, 8, 48) }
+func (c08) NumCases(t core.Tier) int { return tierN(t, 8, 160) }
 
 type c08call struct {
 	jsonNull bool // a JSON body `null` through zjson with a formatter stamping the call id (front-end created issue)
